@@ -494,6 +494,10 @@ class World:
     def op_slm(self, s, op):
         test = s.select(op['test'])
         trial = s.select(op['trial'])
+        if op.get('as_tuple'):
+            # any sequence is an element list
+            test = tuple(test) if test is not None else None
+            trial = tuple(trial) if trial is not None else None
         t_list = test if test is not None else list(s.case.mesh.leaf_elements)
         r_list = trial if trial is not None else t_list
         R = self.ref_matrix(s, t_list, r_list, op.get('sched_seed', 0))
@@ -896,7 +900,7 @@ def gen_run(seed, params):
                 a, b = rng.choice([(9, 11), (3, 33), (7, 14), (5, 19), (9, 9)])
             elif style < 0.5:
                 a, b = rng.choice([(10, 10), (4, 25), (20, 5), (11, 10),
-                                   (2, 50)])
+                                   (2, 50), (1, n), (n, 1), (3, 34)])
             else:
                 a, b = n, n
             test, na = gen_sel(rng, n, min(a, n))
@@ -922,6 +926,8 @@ def gen_run(seed, params):
                 trial = test if rng.random() < 0.6 else {
                     'kind': 'box', 'box': [0.0, 0.5, 2.0, 4.0]}
         S['sels'].append((test, trial))
+        if rng.random() < 0.08:
+            base['as_tuple'] = True
         ops.append(dict(base, op='slm', test=test, trial=trial))
     return {'dirs': dirs, 'ops': ops}
 
